@@ -274,3 +274,74 @@ def distribution(cases, obs):
             d["closed_by_timeout"] += 1 if o["passes"][-1]["closed"] else 0
             d["persisted"] += 1 if any(p["persisted"] for p in o["passes"]) else 0
     return d
+
+
+# --------------------------------------------------------------------------- extra sweeps
+
+def _unwound_round(tls):
+    """A server that was never wound to a Tymist has no time base: it must neither raise nor time out."""
+    from hio.core.http import serving as hserving
+    world = fk.World()
+    with fk.patched(world):
+        kw = dict(port=world.port, host="127.0.0.1", tymeout=3.0, app=_app)
+        if tls:
+            kw.update(scheme="https", context=fk.FakeContext())
+        srv = hserving.Server(**kw)
+        srv.reopen()
+        feeder = Feeder()
+        srv.servant.ss.core.queue.append([CA, False, ["ok"], [feeder.partial()]])
+        for i in range(6):
+            srv.service()
+            ix = srv.servant.ixes.get(fk.ca_of(CA))
+            if ix is None:
+                return f"unwound server dropped the connection in pass {i}"
+            ix.cs.core.chunks.append(feeder.partial())
+        srv.close()
+    return None
+
+
+def _two_connections(T, tls):
+    """An idle and a busy connection on the same server: only the idle one is closed, at t0 + T."""
+    from hio.core.http import serving as hserving
+    from hio.base import tyming
+    world = fk.World()
+    tymist = tyming.Tymist(tyme=0.0, tock=1.0)
+    with fk.patched(world):
+        kw = dict(port=world.port, host="127.0.0.1", tymeout=float(T), app=_app)
+        if tls:
+            kw.update(scheme="https", context=fk.FakeContext())
+        srv = hserving.Server(**kw)
+        srv.wind(tymist.tymen())
+        srv.reopen()
+        fa, fb = Feeder(), Feeder()
+        srv.servant.ss.core.queue.append([0, False, ["ok"], []])
+        srv.servant.ss.core.queue.append([1, False, ["ok"], [fb.partial()]])
+        srv.service()
+        a, b = srv.servant.ixes[fk.ca_of(0)], srv.servant.ixes[fk.ca_of(1)]
+        ca, cb = a.cs.core, b.cs.core
+        for t in range(1, 3 * T + 1):
+            tymist.tyme = float(t)
+            cb.chunks.append(fb.partial())
+            srv.service()
+            if cb.closes:
+                return f"busy connection closed at tyme {t} (tymeout {T}, traffic in every pass)"
+            if (ca.closes > 0) != (t >= T):
+                return f"idle connection accepted at 0 is {'closed' if ca.closes else 'open'} at tyme {t} (tymeout {T})"
+        srv.close()
+        if world.open_ids():
+            return f"sockets {world.open_ids()} open after close"
+    return None
+
+
+def extra(tier, ctx):
+    n = 0
+    for tls in (False, True):
+        for f, args in [(_unwound_round, (tls,))] + [(_two_connections, (T, tls)) for T in (2, 3, 5, 9)]:
+            try:
+                why = f(*args)
+            except Exception as ex:
+                why = f"{f.__name__}{args} raised {type(ex).__name__}: {ex}"
+            n += 1
+            if why:
+                ctx.violations.append({"kind": "extra", "why": why, "case": {"check": f.__name__, "args": list(args)}})
+    return {"extra_scenarios": n}
